@@ -19,7 +19,8 @@ request-controlled parts replaced by plain letters and demands that the real
 body has exactly the same number of ``<``, ``>``, ``"`` and ``'`` characters
 and the same tag sequence as that twin, that every ``&`` begins a character
 reference, that (debug off) neither the exception text nor a traceback shows in
-an HTML page, and that a JSON body is accepted by ``json.loads``.
+an HTML page (the page must be identical when the handler fails with another
+exception text), and that a JSON body is accepted by ``json.loads``.
 """
 import io
 import json
@@ -185,10 +186,25 @@ CPREFIX = {'errhandler': '/zz/p', 'hdr': '/hdr/p', 'surrogate': '/sur/p', 'nopat
 ROUTED = {'405', 'map0', 'map1', 'map2', 'crash', 'unhandled', 'type', 'loops', 'hdr', 'surrogate'}
 
 
+UNDECODABLE = {'400path', 'errhandler400'}      # kinds whose PATH_INFO is meant not to be UTF-8
+
+
+def _decodable(s):
+    try:
+        s.encode('latin1').decode('utf8')
+        return True
+    except UnicodeError:
+        return False
+
+
 def _fit(c):
-    """keep the case inside its error kind: no LF in a tail that has to match a path wildcard"""
-    if (c.get('kind') or c.get('trigger')) in ROUTED and '\n' in c['tail']:
+    """keep the case inside its error kind: no LF in a tail that has to match a
+    path wildcard; a tail that is not UTF-8 only where the kind is about that"""
+    k = c.get('kind') or c.get('trigger')
+    if k in ROUTED and '\n' in c['tail']:
         c['tail'] = c['tail'].replace('\n', '\x0b')
+    if k not in UNDECODABLE and not _decodable(c['tail']):
+        c['tail'] = c['tail'].encode('utf8').decode('latin1')      # send the same characters as UTF-8
     return c
 
 
@@ -303,6 +319,9 @@ def _observe(case):
             o['twin_body'] = b['body']
             o['twin_status'] = b['status']
             o['twin_ctype'] = b['ctype']
+            if case['t'] == 'page' and case['kind'] in ('crash', 'unhandled') and not case.get('debug'):
+                # the same request, the handler failing with another exception text
+                o['altmsg_body'] = _call(dict(case, msg='altered exception text 7391'))['body']
         _CACHE[k] = o
     return _CACHE[k]
 
@@ -495,7 +514,8 @@ def oracle(case, obs):
         return None          # the property is about debug off
     twin = obs.get('twin_body')
     if twin is None or obs.get('twin_status') != obs['status']:
-        return 'benign twin request behaved differently (%r vs %r): oracle cannot compare' % (obs.get('twin_status'), obs['status'])
+        return ('request data changed the outcome: %r for this request, %r for a plain-letter request of the same shape'
+                % (obs['status'], obs.get('twin_status')))
     for ch, name in (('<', '<'), ('>', '>'), ('"', 'double quote'), ("'", 'single quote')):
         if body.count(ch) != twin.count(ch):
             return ('%d x %s in the page, %d in the page for a plain-letter request of the same shape: request data '
@@ -507,9 +527,8 @@ def oracle(case, obs):
             return 'bare & at offset %d (%r)' % (m.start(), body[m.start():m.start() + 12])
     if 'Traceback (most recent call last)' in body:
         return 'traceback shown with debug off'
-    msg = case.get('msg')
-    if msg and len(msg) >= 6 and case['t'] == 'page' and case['kind'] in ('crash', 'unhandled') and msg in body:
-        return 'exception text shown with debug off'
+    if 'altmsg_body' in obs and obs['altmsg_body'] != body:
+        return 'with debug off the page depends on the text of the exception the handler raised'
     return None
 
 
@@ -821,7 +840,10 @@ def shrink(case):
         s = case.get(k)
         if s:
             for i in range(len(s)):
-                yield dict(case, **{k: s[:i] + s[i + 1:]})
+                c = dict(case, **{k: s[:i] + s[i + 1:]})
+                if k == 'tail' and (case.get('kind') or case.get('trigger')) not in UNDECODABLE and not _decodable(c['tail']):
+                    continue        # would turn the request into an undecodable-path 400
+                yield c
     if case.get('debug'):
         yield dict(case, debug=False)
 
